@@ -509,7 +509,7 @@ func (m *LRUStore) CheckClean(target int, respectBan bool, vanished []string, ne
 	}
 	phase1Exhausted := n == len(m.Queue)
 	// a later phase may only run when the previous one ran dry above target
-	anyOrderPhase := func(set []string, all int) string {
+	anyOrderPhase := func(set []string) string {
 		if len(set) == 0 {
 			return ""
 		}
@@ -541,7 +541,7 @@ func (m *LRUStore) CheckClean(target int, respectBan bool, vanished []string, ne
 		if !phase1Exhausted || used <= targetSize {
 			return "incomplete-deleted-before-evictable-exhausted"
 		}
-		if s := anyOrderPhase(p2, cand2); s != "" {
+		if s := anyOrderPhase(p2); s != "" {
 			return "phase2-" + s
 		}
 	}
@@ -549,7 +549,7 @@ func (m *LRUStore) CheckClean(target int, respectBan bool, vanished []string, ne
 		if !phase1Exhausted || len(p2) != cand2 || used <= targetSize {
 			return "banned-deleted-before-others-exhausted"
 		}
-		if s := anyOrderPhase(p3, cand3); s != "" {
+		if s := anyOrderPhase(p3); s != "" {
 			return "phase3-" + s
 		}
 	}
